@@ -26,8 +26,8 @@ import (
 type input struct {
 	Timeout   time.Duration `json:"nat_timeout"`
 	Ops       []udpx.Op     `json:"ops"`
-	Listeners int           `json:"listeners,omitempty"` // UDP listeners of the service (one handler), default 1
-	NoExpiry  bool          `json:"no_expiry,omitempty"` // the history is shorter than the timeout: no association can end
+	Listeners int           `json:"listeners,omitempty"`   // UDP listeners of the service (one handler), default 1
+	NoExpiry  bool          `json:"no_expiry,omitempty"`   // the history is shorter than the timeout: no association can end
 	Manager   bool          `json:"via_manager,omitempty"` // the handler reads from a listener-manager handle (the shared socket's reader sits in between), as in the server
 }
 
@@ -150,7 +150,8 @@ func scenario(name string, in input, sequential bool) *engine.Scenario {
 			obs, more = c03.Oracle(tr, name, 65000)
 			for _, f := range more {
 				switch f.Sig {
-				case "source-changed", "extra-socket", "socket-count", "association-without-auth", "reply-misdelivered", "reply-without-association", "unsolicited-to-client", "reply-lost":
+				case "source-changed", "extra-socket", "socket-count", "association-without-auth", "reply-misdelivered", "reply-without-association", "unsolicited-to-client", "reply-lost", "valid-datagram-not-forwarded":
+					// (a client's authenticated datagram that does not leave at all has no source address)
 					fs = append(fs, f)
 				}
 			}
@@ -214,6 +215,9 @@ func menu() []udpx.Op {
 	m = append(m, udpx.Op{K: "R", C: 0, T: 1, N: 65490})
 	// an empty reply (delivered like any other)
 	m = append(m, udpx.Op{K: "R", C: 1, T: 1, N: 0})
+	// a transient, non-timeout error on a client's outbound socket (ICMP port unreachable): the
+	// association stays
+	m = append(m, udpx.Op{K: "E", C: 0})
 	m = append(m, udpx.Op{K: "A", D: 9 * time.Second}, udpx.Op{K: "A", D: 11 * time.Second})
 	return m
 }
